@@ -158,3 +158,18 @@ let show_out (before : xstate) (st : xstate) (o : mout) : string =
   | MErr EInvalidComment -> "ERR:InvalidComment"
   | MErr ENotElement -> "ERR:NotElement"
   | MPanic -> "PANIC"
+
+(* idx=<id code points>:<slot>.<stamp>,... *)
+let parse_idx (s : string) =
+  let body = String.sub s 4 (String.length s - 4) in
+  L.map (fun e ->
+    match String.split_on_char ':' e with
+    | [id; h] ->
+      (match String.split_on_char '.' h with
+       | [a; b] -> (dec_str id, (n_of_int (int_of_string a), z_of_int (int_of_string b)))
+       | _ -> failwith ("bad handle in idx: " ^ e))
+    | _ -> failwith ("bad idx entry: " ^ e)) (split_on ',' body)
+
+let show_handle_opt = function
+  | None -> "-"
+  | Some (i, s) -> nstr i ^ "." ^ string_of_int (int_of_z s)
